@@ -229,6 +229,7 @@ Apply(op, st, IdLess(_, _)) ==
     [] op.op = "query"    -> DoQuery(st, {op.qs[k] : k \in 1..Len(op.qs)})
     [] op.op = "copy"     -> DoCopy(st)
     [] op.op = "pickle"   -> DoCopy(st)
+    [] op.op = "deepcopy" -> DoCopy(st)
     [] op.op = "addop"    -> DoAddOp(st, op.xs)
     [] op.op = "subop"    -> DoSubOp(st, op.xs)
     [] op.op = "getitem"  -> DoGetItem(st, op.i)
@@ -238,7 +239,7 @@ Apply(op, st, IdLess(_, _)) ==
 Mutating(op) == op.op \in {"append", "add", "extend", "iadd", "union", "insert", "pop", "poplast",
                            "delitem", "remove", "removeid", "isub", "setitem", "setslice",
                            "delslice", "sort", "sortrev", "reverse", "rename"}
-ReturnsList(op) == op.op \in {"getslice", "query", "copy", "pickle", "addop", "subop"}
+ReturnsList(op) == op.op \in {"getslice", "query", "copy", "pickle", "deepcopy", "addop", "subop"}
 
 \* tags: computed from spec state and arguments only (known-findings filter)
 Tags(op, st) ==
